@@ -8,7 +8,7 @@ PID = "C05"
 LEVEL = "model_checking"
 RULE = ("stateless exploration of the real gen_coords under a chooser: systems with mixed residue sizes (0.5/1.0 nm), linear, "
         "branched and cyclic residue graphs, dilute and dense boxes (down to 2.5 nm with 8 molecules), one orthorhombic box, "
-        "start grids with points next to the periodic boundary, step factors {1.0, 0.5}, force limits {default, 10, 1e9}; all "
+        "a chain built next to 5001 supplied residues (second search tree), start grids with points next to the periodic boundary, step factors {1.0, 0.5}, force limits {default, 10, 1e9}; all "
         "trajectories with <=2 direction deviations and <=1 start-point deviation from the default (first vector, round-robin "
         "grid point), natural rejections included (thorough: <=3 and diagonal bundles). Oracle at every accepted add_positions: "
         "inside [0, box); minimum-image distance to the parent == step; first residue on its grid point; brute-force minimum "
@@ -60,6 +60,16 @@ def systems(tier):
                     kwargs=dict(nrewind=3, maxiter=2, build_res=["S"])))
     # polyply's own start grid (no -grid file) in a strongly non-cubic box: every grid point is tried as the first start
     out.append(dict(types=["CH3"], molecules=[("CH3", 1)], box=[2.0, 3.0, 4.0], grid=None, kwargs=dict(grid_spacing=1.0), own_grid=True))
+    # ... and in a box whose edge is a multiple of the spacing only up to round-off (2.1 / 0.3 = 7.000000000000001): no start point
+    # may lie on the upper box face
+    out.append(dict(types=["CH3"], molecules=[("CH3", 1)], box=[2.1, 2.0, 2.0], grid=None, kwargs=dict(grid_spacing=0.3), own_grid=True, devs=0))
+    # more than 5000 supplied residues: the chain's residues go into a second search tree, forces and the 0.1 nm floor have to
+    # see the residues of the first one (start point 1 sits inside the slab of supplied W: force ~2000 > limit 100; start
+    # point 2 sits 0.5 nm above the slab: ~12; the step down from there ends 0.15 nm from a supplied W - above the 0.1 nm floor,
+    # force ~6e8 - the other steps run along the slab or away)
+    out.append(dict(types=["W", "CH3"], molecules=[("W", 5001), ("CH3", 1)], box=[10.0, 10.0, 10.0], devs=1,
+                    grid=[[1.05, 1.0, 1.0], [4.9, 4.75, 6.75], [4.75, 4.75, 8.25]], kwargs=dict(max_force=100.0),
+                    input=dict(kind="c", lattice=dict(count=5001, spacing=0.5, origin=[0.25, 0.25, 0.25], per_axis=20), box=[10.0, 10.0, 10.0])))
     if tier == "thorough":
         for b in ("axis+diag14", "axis+face18"):
             out.append(dict(types=["CH4"], molecules=[("CH4", 2)], bundle=b, **base))
@@ -119,8 +129,8 @@ def run_case(case):
         res = run_exec(sysdef, Chooser(case["choices"]))
         v, _ = judge(sysdef, res, case["choices"])
         return dict(evals=1, keys=[], violations=v, stats={})
-    d = sysdef.get("devs") or (2 if case["tier"] == "quick" else 3)
-    bounds = {"vec": d, "grid": 1, "*": d}
+    d = sysdef["devs"] if sysdef.get("devs") is not None else (2 if case["tier"] == "quick" else 3)
+    bounds = {"vec": d, "grid": 1, "*": max(d, 1)}
     if sysdef.get("faults"):
         bounds = {"fault": 2, "vec": 0, "grid": 0, "*": 2}
     evals, keys, viols, traces, ntrans = 0, set(), [], set(), 0
